@@ -636,6 +636,17 @@ class Body:
             out.append((bb, simplify(self.origin_on_path(t['on'], path[:k + 1])), vals))
         return out
 
+    def edge_truth(self, bb, vals):
+        """truth of a boolean switch operand on the edge carrying `vals`: False on the 0 arm, True on every other one"""
+        if vals == [0]:
+            return False
+        if 0 in vals:
+            return None
+        if vals == ['else']:
+            arms = [v for v, _ in self.term(bb)['arms']]
+            return True if 0 in arms else None
+        return True if 'else' not in vals else None
+
     def ret_on_path(self, path, local=0):
         """the value the return slot (or `local`) holds at the end of `path`"""
         pos = {bb: i for i, bb in enumerate(path)}
